@@ -22,7 +22,7 @@ ALL_KINDS = CHAIN_KINDS + ["ensemble"]
 # ------------------------------------------------------------------ strategies
 @st.composite
 def sampler_config(draw, kinds=ALL_KINDS, bounds="maybe", max_d=4, temps=(1.0, 1.0, 2.0, 5.0, 32.0),
-                   extreme=False):
+                   extreme=False, gibbs_limits=True):
     kind = draw(st.sampled_from(kinds))
     d = draw(st.integers(1, max_d))
     T = 1.0 if kind == "ensemble" else draw(st.sampled_from(temps))
@@ -87,6 +87,14 @@ def sampler_config(draw, kinds=ALL_KINDS, bounds="maybe", max_d=4, temps=(1.0, 1
         cfg["n_walkers"] = d + 1 + draw(st.integers(0, 4))
         knobs["max_attempts"] = draw(st.sampled_from([1, 2, 100]))
     cfg["knobs"] = knobs
+    if gibbs_limits and kind in ("gibbs", "metropolis") and draw(st.integers(0, 2)) == 0:
+        # limits set on the chain right after construction (relative to the start point, applied by Harnessed)
+        lim = []
+        for i in range(d):
+            w = draw(st.sampled_from(["none", "none", "nonneg", "bounds", "both"]))
+            if w != "none":
+                lim.append([w, i, draw(st.sampled_from([0.5, 2.0, 10.0])), draw(st.sampled_from([0.3, 0.5, 0.9]))])
+        cfg["limits"] = lim
     return cfg
 
 
@@ -122,6 +130,15 @@ class Harnessed:
             c.namespace = None
         self.is_ensemble = self.kind == "ensemble"
         self.n_walkers = cfg.get("n_walkers", 1)
+        for w, i, width, frac in cfg.get("limits") or []:
+            x0 = float(inputs["start"][i])
+            if w in ("bounds", "both"):
+                lo = x0 - width * frac
+                if w == "both":
+                    lo = max(lo, -0.25 * width) if x0 >= 0 else lo
+                lib_call("set_boundaries", self.chain.set_boundaries, i, (lo, lo + width))
+            if w in ("nonneg", "both") and x0 >= 0:
+                lib_call("set_non_negative", self.chain.set_non_negative, i, True)
 
     # ---- read-outs that work for every class (ensemble before first advance has none)
     def rows(self):
